@@ -69,10 +69,6 @@ Inductive fkind :=
 | FkIntSlice (signed : bool) (bits : N)
 | FkStrMap | FkStrSet | FkStrSliceMap.
 
-Definition netip_name : str := s2r "net.IP"%string.
-Definition is_netip (t : ty) : bool :=
-  match t with TSlice (TBasic (KUint 8) _) n => str_eqb n netip_name | _ => false end.
-
 Definition plain (name : str) : bool := match name with [] => true | _ => false end.
 
 (* t: the leaf type with all pointers stripped *)
